@@ -135,6 +135,20 @@ func c12BodyS(r *core.Rec, seed int64, d, p, length, g int, odd bool, sparse int
 			}
 		}
 	}
+	// the other lengths: the coder has just been used - with the same goroutine count - on shards of a neighbouring length
+	// that falls into the same number of 16-byte units (and once with one goroutine in between): whatever is remembered
+	// about the partition of the previous call must not be applied to this one
+	if (length/2)%2 == 0 && length >= 4 {
+		nb := length - length%16 + (length%16+8)%16
+		if nb < 2 {
+			nb = 2
+		}
+		if nb != length && (nb+15)/16 == (length+15)/16 {
+			other := c07Data(seed+1, d, nb)
+			core.Catch(func() { coder.GenerateParity(other) })
+			core.Catch(func() { c12Code(d, p, 1).GenerateParity(other) })
+		}
+	}
 	var par [][]byte
 	// the data list is handed in as a window into a longer list (the "next stripe" and its parity slots behind it): the
 	// callee may not touch what lies behind the window, whatever the goroutine count
